@@ -224,6 +224,31 @@ impl<'this> OwningIovec<'this> {
         &mut self.arena
     }
 
+    /// Verification hook: all slices `(address, len)`, all anchors `(count, chunk)`, the
+    /// allocation cache `(start, bump, end)`, and the pending backrefs
+    /// `(logical end, slice index, begin, len)`.
+    #[cfg(woodpile_verif)]
+    #[doc(hidden)]
+    #[allow(clippy::type_complexity)]
+    pub fn verif_view(
+        &self,
+    ) -> (
+        Vec<(usize, usize)>,
+        Vec<(usize, usize)>,
+        Option<(usize, usize, usize)>,
+        Vec<(u64, u64, usize, usize)>,
+    ) {
+        let (slices, anchors) = self.slices.verif_view();
+        let backrefs = self
+            .backrefs
+            .iter()
+            .filter_map(|(end, info)| {
+                info.map(|i| (end.get(), i.slice_index, i.begin, i.len.get()))
+            })
+            .collect();
+        (slices, anchors, self.arena.verif_cache(), backrefs)
+    }
+
     /// Returns a [`ConsumingIovec`] for this [`OwningIovec`].
     #[must_use]
     #[inline(always)]
